@@ -88,6 +88,11 @@ JudgeNtKernel(e, i) ==
                   [] i.op = "mixed_add" -> Add(a, Shl(b, 4))          \* exponent -8 + exponent -4
                   [] i.op = "mixed_cmp_fine_coarse" -> CmpMask(a, Shl(b, 4))      \* a*2^-8 ? b*2^-4
                   [] i.op = "mixed_cmp_coarse_fine" -> CmpMask(Shl(b, 4), a)
+                  \* % and / do not align their operands: remainder of the representations at the dividend's exponent, quotient of
+                  \* the representations at the difference of the exponents (l = the 2^-8 operand / divisor, r = the 2^-4 or bare operand)
+                  [] i.op \in {"mixed_mod_coarse_fine", "int_mod_scaled", "mixed_modassign"} -> TruncRem(b, a)
+                  [] i.op = "mixed_mod_fine_coarse" -> TruncRem(a, b)
+                  [] i.op = "mixed_div_coarse_fine" -> TruncDiv(b, a)
         cls == <<"NtKernel", i.op>>
     IN IF (i.op = "mixed_add" /\ (~InT(want, IntT(32, 1)) \/ ~InT(Shl(b, 4), IntT(32, 1))))
           \/ (i.op \in {"mixed_cmp_fine_coarse", "mixed_cmp_coarse_fine"} /\ ~InT(Shl(b, 4), IntT(32, 1)))
